@@ -334,6 +334,11 @@ public:
   // reconnect tears the transport down between the state check and the snapshot,
   // sendRawBytes sees a null transport / zero session and no-ops — there is no
   // torn send. So the state-check-then-act here is not a TOCTOU bug.
+  //
+  // Data-after-close prevention (RFC 6455 §5.5.1), as in WebSocketServer: the
+  // _closeSent recheck and the send are ATOMIC under _sendMutex w.r.t. sendClose
+  // (which flips _closeSent under _sendMutex), so a DATA or PING frame can never
+  // follow a CLOSE frame. Order: _sendMutex -> _transportMutex (sendRawBytes).
 
   void sendText(const std::string& text)
   {
@@ -341,6 +346,8 @@ public:
     auto frame = WebSocketFrame::makeText(text);
     generateMaskKey(frame.maskKey);
     auto wire = frame.serialize(true); // client MUST mask
+    std::lock_guard<std::mutex> lock(_sendMutex);
+    if (_closeSent) return; // drop: the CLOSE frame is already on its way
     sendRawBytes(wire.data(), wire.size());
   }
 
@@ -350,6 +357,8 @@ public:
     auto frame = WebSocketFrame::makeBinary(data);
     generateMaskKey(frame.maskKey);
     auto wire = frame.serialize(true);
+    std::lock_guard<std::mutex> lock(_sendMutex);
+    if (_closeSent) return;
     sendRawBytes(wire.data(), wire.size());
   }
 
@@ -359,6 +368,8 @@ public:
     auto frame = WebSocketFrame::makePing(payload);
     generateMaskKey(frame.maskKey);
     auto wire = frame.serialize(true);
+    std::lock_guard<std::mutex> lock(_sendMutex);
+    if (_closeSent) return;
     sendRawBytes(wire.data(), wire.size());
   }
 
@@ -371,6 +382,8 @@ public:
     auto frame = WebSocketFrame::makeClose(code, reason);
     generateMaskKey(frame.maskKey);
     auto wire = frame.serialize(true);
+    std::lock_guard<std::mutex> lock(_sendMutex);
+    _closeSent = true; // no DATA / PING frame after this one
     sendRawBytes(wire.data(), wire.size());
   }
 
@@ -543,6 +556,10 @@ private:
     }
     _upgradeComplete.store(false);
     _closeEchoed.store(false); // re-arm the one-shot CLOSE echo for this connection
+    {
+      std::lock_guard<std::mutex> lock(_sendMutex);
+      _closeSent = false; // a fresh connection may send data again
+    }
 
     // Register the global callbacks on the LOCAL transport. Each weak-captures
     // the client (NEVER an owning shared_ptr<Transport> of its own _transport —
@@ -1209,6 +1226,10 @@ private:
   // CLOSE is echoed, re-armed in doConnect() per connection. Replaces the dead
   // _state==CLOSING guard (CLOSING is never stored — it is a reserved state).
   std::atomic<bool> _closeEchoed{false};
+
+  // Orders DATA/PING frames against the CLOSE frame (see the Send section).
+  std::mutex _sendMutex;
+  bool _closeSent{false}; // guarded by _sendMutex; reset per connection in doConnect()
 
   // Fragment reassembly (protected by _dataMutex)
   std::vector<std::uint8_t> _fragmentBuffer;
